@@ -157,8 +157,17 @@ class Sandbox:
 
 # ------------------------------------------------------------------ snapshots (the oracle's and the model's input)
 
+def is_ancestor_link(full):
+    """a symbolic link that resolves to the directory holding it or to one of that directory's ancestors"""
+    try:
+        rp = os.path.realpath(full, strict=True)
+        dp = os.path.realpath(os.path.dirname(full), strict=True)
+    except OSError:
+        return False
+    return dp == rp or dp.startswith(rp.rstrip("/") + "/")
+
 def lsnap(root):
-    """lstat walk: relpath -> (type, dev, ino, mode, size, mtime_ns, link target); '' is the root itself."""
+    """lstat walk: relpath -> (type, dev, ino, mode, size, mtime_ns, link target, link leads to an ancestor?); '' is the root itself."""
     out = {}
     def rec(full, rel):
         try:
@@ -167,7 +176,8 @@ def lsnap(root):
             return
         m = st.st_mode
         ty = "l" if stat.S_ISLNK(m) else "d" if stat.S_ISDIR(m) else "f" if stat.S_ISREG(m) else "p" if stat.S_ISFIFO(m) else "o"
-        out[rel] = (ty, st.st_dev, st.st_ino, m, st.st_size, st.st_mtime_ns, os.readlink(full) if ty == "l" else None)
+        out[rel] = (ty, st.st_dev, st.st_ino, m, st.st_size, st.st_mtime_ns, os.readlink(full) if ty == "l" else None,
+                    is_ancestor_link(full) if ty == "l" else None)
         if ty == "d":
             for n in sorted(os.listdir(full)):
                 rec(os.path.join(full, n), (rel + "/" + n) if rel else n)
@@ -175,9 +185,10 @@ def lsnap(root):
     return out
 
 def rsnap(root, maxdepth=10):
-    """resolved walk (stat, following links): logical relpath -> (type, dev, ino, mode, size, mtime_ns) or 'missing'."""
+    """resolved walk (stat, following links, not into a directory it is already inside of):
+    logical relpath -> (type, dev, ino, mode, size, mtime_ns) or 'missing'."""
     out = {}
-    def rec(full, rel, depth):
+    def rec(full, rel, depth, stack):
         try:
             st = os.stat(full)
         except OSError:
@@ -187,9 +198,12 @@ def rsnap(root, maxdepth=10):
         ty = "d" if stat.S_ISDIR(m) else "f" if stat.S_ISREG(m) else "p" if stat.S_ISFIFO(m) else "o"
         out[rel] = (ty, st.st_dev, st.st_ino, m, st.st_size, st.st_mtime_ns)
         if ty == "d" and depth < maxdepth:
+            rp = os.path.realpath(full)
+            if rp in stack:
+                return
             for n in sorted(os.listdir(full)):
-                rec(os.path.join(full, n), (rel + "/" + n) if rel else n, depth + 1)
-    rec(root, "", 0)
+                rec(os.path.join(full, n), (rel + "/" + n) if rel else n, depth + 1, stack | {rp})
+    rec(root, "", 0, frozenset())
     return out
 
 _libc = ctypes.CDLL(None)
@@ -212,8 +226,10 @@ def visible(snap, pats):
 def enc_info(st):
     return "(%d.%d.%d.%d.%d.%d)" % (st.st_dev, st.st_ino, st.st_mode, st.st_size, st.st_mtime_ns // 10**9, st.st_mtime_ns % 10**9)
 
-def enc_tree(full, depth=0):
-    """the model's input: the `tree` term of BSys/DirTree.v for what is at `full` (children in os.listdir order)"""
+def enc_tree(full, depth=0, stack=frozenset()):
+    """the model's input: the `tree` term of BSys/DirTree.v for what is at `full` (children in os.listdir order).
+    A link that leads back into a directory being encoded is given a childless stand-in for its target: the model has
+    to leave such a link out by itself (if it did not, its tokens would differ from llbuild's)."""
     try:
         st = os.lstat(full)
     except OSError:
@@ -223,20 +239,23 @@ def enc_tree(full, depth=0):
             rp = "=" + hx(os.fsencode(os.path.realpath(full, strict=True))) + ";"
         except OSError:
             rp = "!"
-        return "L" + enc_info(st) + rp + enc_follow(full, depth + 1)
+        return "L" + enc_info(st) + rp + enc_follow(full, depth + 1, stack)
     if stat.S_ISDIR(st.st_mode):
-        return "D" + enc_info(st) + "[" + ",".join(hx(os.fsencode(n)) + ":" + enc_tree(os.path.join(full, n), depth + 1) for n in os.listdir(full)) + "]"
+        stk = stack | {os.path.realpath(full)}
+        return "D" + enc_info(st) + "[" + ",".join(hx(os.fsencode(n)) + ":" + enc_tree(os.path.join(full, n), depth + 1, stk) for n in os.listdir(full)) + "]"
     return "F" + enc_info(st)
 
-def enc_follow(full, depth):
+def enc_follow(full, depth, stack=frozenset()):
     try:
         st = os.stat(full)
     except OSError:
         return "M"
     if stat.S_ISDIR(st.st_mode):
-        if depth > 10:
-            return "M"
-        return "D" + enc_info(st) + "[" + ",".join(hx(os.fsencode(n)) + ":" + enc_tree(os.path.join(full, n), depth + 1) for n in os.listdir(full)) + "]"
+        rp = os.path.realpath(full)
+        if depth > 10 or rp in stack:
+            return "F" + enc_info(st)
+        stk = stack | {rp}
+        return "D" + enc_info(st) + "[" + ",".join(hx(os.fsencode(n)) + ":" + enc_tree(os.path.join(full, n), depth + 1, stk) for n in os.listdir(full)) + "]"
     return "F" + enc_info(st)
 
 # ------------------------------------------------------------------ the property oracle
@@ -291,8 +310,12 @@ def oracle(prev, cur, pats, produced=(), prev_pats=None):
         # filtered listing still has the name and its node is MissingInput before and after
         return bool(pats) and k in L0r and k not in L1r and parent_unchanged(k) and prev[1].get(k) == "missing"
     # "seen through" (known finding D4) explains a path only when what the link RESOLVES to did not change
-    hints["cat_T"] = {k: ("mode" if only_mode(k) else "link" if (involves_link(k) and R0r.get(k) == R1r.get(k)) else "stale" if gone_unseen(k) else None) for k in D}
-    hints["cat_S"] = {k: ("link" if (involves_link(k) and shR0.get(k) == shR1.get(k)) else "stale" if gone_unseen(k) else None) for k in SD}
+    def ancestor_link(k):
+        # an entry that is, on every side where it exists, a symbolic link to an ancestor of its directory
+        sides = [x for x in (L0r.get(k), L1r.get(k)) if x is not None]
+        return bool(sides) and all(x[0] == "l" and x[7] for x in sides)
+    hints["cat_T"] = {k: ("ancestor" if ancestor_link(k) else "mode" if only_mode(k) else "link" if (involves_link(k) and R0r.get(k) == R1r.get(k)) else "stale" if gone_unseen(k) else None) for k in D}
+    hints["cat_S"] = {k: ("ancestor" if ancestor_link(k) else "link" if (involves_link(k) and shR0.get(k) == shR1.get(k)) else "stale" if gone_unseen(k) else None) for k in SD}
     hints["file_root"] = L0r.get("", ("?",))[0] != "d" and L1r.get("", ("?",))[0] != "d" and "" in L0r and "" in L1r
     # entries that appeared while the record of their directory stayed the same: a stored filtered listing does not have them
     Draw = [k for k in diff_paths(L0r, L1r) if k != ""]
@@ -313,13 +336,15 @@ def oracle(prev, cur, pats, produced=(), prev_pats=None):
     return must_T, must_S, hints
 
 def missed_key(cmd, hints, cats):
-    """cats: path -> 'mode' | 'link' | 'stale' | None for the paths whose change the command had to see"""
+    """cats: path -> 'ancestor' | 'mode' | 'link' | 'stale' | None for the paths whose change the command had to see"""
     ks = hints["changed"] if cmd == "tree" else hints["shape_changed"]
     got = [cats.get(k) for k in ks]
     if any(c is None for c in got):
         if hints["truncated_listing"]:
             return "filtered-listing-truncated-%s" % cmd
         return "%s-missed-change" % cmd
+    if "ancestor" in got:
+        return "ancestor-link-edit-unseen-%s" % cmd
     if "mode" in got:
         return "tree-misses-mode-change" if cmd == "tree" else "structure-missed-change"
     if "link" in got:
@@ -445,6 +470,11 @@ def gen_edit(rng, sb, family, pats):
         kinds = ["link-to-hardlink", "file-to-link", "link-to-file", "respell-link", "link-to-hardlink"]
     elif family == "root":
         kinds = ["rm-root", "retype-root", "touch-root", "content"]
+    elif family == "ancestor":
+        # edits elsewhere in a tree that holds links to ancestors; no new links, nothing moved (other loops stay out)
+        kinds = ["content", "content-same-size", "touch", "add-file", "add-dir", "rm", "retype-fifo", "touch-dir"]
+        if pats:
+            kinds += ["excluded-content", "excluded-add"]
     kind = rng.choice(kinds)
     if kind in ("content", "content-same-size", "excluded-content"):
         o = pick(rng, exc(files) if kind == "excluded-content" else vis(files))
@@ -624,9 +654,11 @@ def write_build(sb, pats, absolute, tsp="slash", ssp="is-directory-structure", p
     return tnode.rstrip("/"), snode.rstrip("/")
 
 def build(llb, sb):
+    """one build in a fresh process, under a memory limit and a small timeout (a listing that follows links to
+    ancestors would never finish)"""
     before = counts(sb.S)
-    rc, out, err = vlib.sh([llb, "buildsystem", "build", "--serial", "--chdir", sb.S, "--db", os.path.join(sb.S, "build.db"),
-                            "-f", os.path.join(sb.S, "build.llbuild")], timeout=120)
+    rc, out, err = vlib.sh(["bash", "-c", 'ulimit -v 4000000; exec timeout 30 "$0" "$@"', llb, "buildsystem", "build", "--serial", "--chdir", sb.S,
+                            "--db", os.path.join(sb.S, "build.db"), "-f", os.path.join(sb.S, "build.llbuild")], timeout=120)
     after = counts(sb.S)
     return rc, after[0] > before[0], after[1] > before[1], (out + err)[-600:]
 
@@ -690,7 +722,8 @@ def run_scenario(chk, llb, model, sc, idx, generate=None):
             rec["model_T"] = rec["model_S"] = None
         return records
     fl = lambda ps: "." if not ps else ",".join(hx(p.encode()) for p in ps)
-    reqs = ["scenariop %s %s" % (hx(p.encode()), " ".join(fl(ps) + "@" + e for ps, e in zip(pats_used, encs))) for p in (pT, pS)]
+    rroot = os.path.realpath(sb.p(sb.root))      # what real_path() gives for the node's path (both spellings)
+    reqs = ["scenariop %s %s %s" % (hx(p.encode()), hx(os.fsencode(rroot)), " ".join(fl(ps) + "@" + e for ps, e in zip(pats_used, encs))) for p in (pT, pS)]
     rc, out, err = vlib.run_lines(model, reqs, timeout=300)
     if rc != 0 or len(out) != 2 or any(o.startswith(("ERR", "EXC")) for o in out):
         raise RuntimeError("model failed on scenario %d: rc=%s out=%r err=%s" % (idx, rc, out[:2], err[-500:]))
@@ -710,6 +743,9 @@ def judge(chk, sc, records, idx):
         if extra: d.update(extra)
         return d
     r0 = records[0]
+    if r0["rc"] != 0 and sc.get("ancestor_links"):
+        chk.violation("ancestor-links-do-not-terminate", "the first build over a tree with links to ancestors did not finish within 30 s / 4 GB (rc=%s)" % r0["rc"], rp(r0), found_input=True, broken="c12 oracle (termination)")
+        return 0
     if r0["rc"] != 0 or not (r0["ranT"] and r0["ranS"]):
         chk.violation("initial-build", "the first build failed or did not run both commands (rc=%s)" % r0["rc"], rp(r0), found_input=True, broken="c12 harness expectation")
         return 0
@@ -751,7 +787,10 @@ def judge(chk, sc, records, idx):
                 ghosts.setdefault(par, set()).add(name)
         key = (fam, bool(spats), tuple(rec["labels"]), rec["ranT"], rec["ranS"])
         chk.count(key if (rec["must_T"] or rec["must_S"]) else None)
-        if rec["rc"] != 0:
+        if rec["rc"] != 0 and sc.get("ancestor_links"):
+            unlisted |= chk.violation("ancestor-links-do-not-terminate", "a build over a tree with links to ancestors did not finish within 30 s / 4 GB (rc=%s) after: %s" % (rec["rc"], "; ".join(rec["labels"])),
+                                      rp(rec), found_input=True, broken="c12 oracle (termination)")
+        elif rec["rc"] != 0:
             unlisted |= chk.violation("build-failed", "llbuild exited with %d during an incremental build" % rec["rc"], rp(rec), found_input=True, broken="c12 oracle")
         for cmd, ran, must in (("tree", rec["ranT"], rec["must_T"]), ("structure", rec["ranS"], rec["must_S"])):
             if must is True and not ran:
@@ -885,6 +924,26 @@ def corpus():
         dict(labels=["patterns -> [*.tmp]: x.tmp, sub/y.tmp hidden again"], ops=[], pats=["*.tmp"]),
         dict(labels=["excluded-content (sub/y.tmp, hidden again)"], ops=[dict(op="write", path="tree/sub/y.tmp", data="tttt", t=T0 + 965 * STEP_NS)]),
         dict(labels=["content (a.txt)"], ops=[dict(op="write", path="tree/a.txt", data="aa", t=T0 + 966 * STEP_NS)])]))
+    # d863e96 (repaired; seeded C12-8 reverts it): links to ancestors, relative and absolute node paths, with and without patterns
+    for absolute in (False, True):
+        for pats_ in ([], ["*.tmp"]):
+            tag = ("-absolute" if absolute else "-relative") + ("-filtered" if pats_ else "")
+            out.append(dict(name="ancestor-links" + tag, family="ancestor", ancestor_links=True, absolute=absolute, pats=pats_,
+                            init=d(("a", f()), ("sub", d(("up", dict(k="l", to="..")), ("b", f("b")), ("x.tmp", f("t")),
+                                                         ("deep", d(("up2", dict(k="l", to="../..")), ("up", dict(k="l", to="..")), ("self", dict(k="l", to=".")), ("c", f("c"))))))), steps=[
+                dict(labels=["nothing"], ops=[]),
+                dict(labels=["content (beside the links)"], ops=[dict(op="write", path="tree/sub/deep/c", data="cc", t=T0 + 970 * STEP_NS)]),
+                dict(labels=["add-file (beside the links)"], ops=[dict(op="add", path="tree/sub/deep/new", spec=f(), dir_t=T0 + 971 * STEP_NS)]),
+                dict(labels=["file-to-fifo"], ops=[dict(op="retype", path="tree/sub/b", spec=dict(k="p"), dir_t=T0 + 972 * STEP_NS)]),
+                dict(labels=["rm"], ops=[dict(op="rm", path="tree/sub/deep/new", dir_t=T0 + 973 * STEP_NS)]),
+                dict(labels=["nothing"], ops=[])]))
+    # finding ancestor-link-edit-unseen: such a link added or removed (directory mtime restored) is an entry added or removed
+    out.append(dict(name="ancestor-link-edits", family="ancestor", ancestor_links=True, pats=[],
+                    init=d(("a", f()), ("sub", d(("b", f("b")), ("deep", d(("c", f("c"))))))), steps=[
+        dict(labels=["add-ancestor-link (sub/up -> ..), directory mtime restored"], ops=[dict(op="add", path="tree/sub/up", spec=dict(k="l", to=".."), dir="keep")]),
+        dict(labels=["add-ancestor-link (sub/deep/self -> .)"], ops=[dict(op="add", path="tree/sub/deep/self", spec=dict(k="l", to="."), dir_t=T0 + 975 * STEP_NS)]),
+        dict(labels=["rm-ancestor-link (sub/up), directory mtime restored"], ops=[dict(op="rm", path="tree/sub/up", dir="keep")]),
+        dict(labels=["content"], ops=[dict(op="write", path="tree/sub/deep/c", data="cc", t=T0 + 976 * STEP_NS)])]))
     # D1 (known): chmod only
     out.append(dict(name="chmod-only", family="mode", pats=[], init=d(("a.txt", f()), ("sub", d(("b", f())))), steps=[
         dict(labels=["chmod"], ops=[dict(op="chmod", path="tree/sub/b", mode=0o600)]),
@@ -952,6 +1011,22 @@ def gen_scenario(rng, family, pats, idx):
     sc = dict(family=family, pats=pats, steps=[], nsteps=rng.randint(2, 4) + 1,
               siblings=dict(outside=dict(k="d", mode=0o755, c=[["of", dict(k="f", data="outside")], ["od", dict(k="d", mode=0o755, c=[["o2", dict(k="f", data="o")]])]])))
     sc["init"] = gen_spec(rng, 1, maxdepth, 3, ["../outside/of", "../../outside/od", "nowhere", "a", "b.txt"])
+    if family == "ancestor":
+        # links to ancestors at depth 1 and 2: up -> .., up2 -> ../.., self -> .
+        sc["ancestor_links"] = True
+        sc["absolute"] = rng.random() < 0.5
+        dirs1 = [e for e in sc["init"]["c"] if e[1]["k"] == "d"]
+        if not dirs1:
+            sc["init"]["c"].append(["sub", dict(k="d", mode=0o755, c=[["k", dict(k="f", data="k")]])])
+            dirs1 = [sc["init"]["c"][-1]]
+        d1 = rng.choice(dirs1)[1]
+        d1["c"] = [e for e in d1["c"] if e[0] not in ("up", "up2", "self")] + [["up", dict(k="l", to="..")]]
+        if rng.random() < 0.6:
+            d1["c"].append(["self", dict(k="l", to=".")])
+        dirs2 = [e for e in d1["c"] if e[1]["k"] == "d"]
+        if dirs2 and rng.random() < 0.7:
+            d2 = rng.choice(dirs2)[1]
+            d2["c"] = [e for e in d2["c"] if e[0] not in ("up", "up2")] + [["up2", dict(k="l", to="../..")], ["up", dict(k="l", to="..")]]
     if family == "produced":
         # the root and up to two existing sub-directories are outputs of mkdir commands
         subs = []
@@ -995,7 +1070,7 @@ def make_generator(rng, family, pats0):
         fam = family
         for _ in range(n):
             for attempt in range(6):
-                f = "core" if fam in ("produced", "patterns") else (fam if (fam in ("core",) or rng.random() < 0.75) else "core")
+                f = "ancestor" if fam == "ancestor" else "core" if fam in ("produced", "patterns") else (fam if (fam in ("core",) or rng.random() < 0.75) else "core")
                 e = gen_edit(rng, sb, f, pats)
                 if e is not None:
                     break
@@ -1004,7 +1079,7 @@ def make_generator(rng, family, pats0):
             op, label = e
             sb.apply(op)            # applied immediately so that the next choice sees the new tree
             ops.append(dict(op)); labels.append(label)
-            for bad in cycle_links(sb):      # loops are outside the generator's space (see the corpus for one)
+            for bad in ([] if family == "ancestor" else cycle_links(sb)):      # other loops are outside the generator's space
                 if os.path.lexists(sb.p(bad)):
                     fix = dict(op="rm", path=bad, dir_t=sb.tick())
                     sb.apply(fix)
@@ -1028,8 +1103,8 @@ def run(chk):
     plan = []
     n = chk.n(60, 900)
     for i in range(n):
-        r = i % 14
-        family = "core" if r < 6 else ("mode", "stale", "symlink", "root", "produced", "produced", "patterns", "patterns")[r - 6]
+        r = i % 16
+        family = "core" if r < 6 else ("mode", "stale", "symlink", "root", "produced", "produced", "patterns", "patterns", "ancestor", "ancestor")[r - 6]
         pats = rng.choice(PATTERN_SETS) if (family == "stale" or (family == "patterns" and rng.random() < 0.8) or (family != "symlink" and rng.random() < 0.45)) else []
         plan.append((family, pats))
     for family, pats in plan:
